@@ -804,7 +804,7 @@ func runC07(a runArgs) error {
 	rng := NewRng(a.seed)
 	nstreams, nbig := 330, 3
 	if a.tier == "thorough" {
-		nstreams, nbig = 4000, 120
+		nstreams, nbig = 1500, 24
 	}
 	// fixed corpus: the uint32 wrap witnesses (F16) and boundary headers, each followed by valid frames
 	follow := []c07Item{{code: 69, tok: []byte{1, 2}, psalt: 3, plen: 5}, {code: 226}, {code: 1, tok: []byte{9}, opts: []c07Opt{{11, []byte("x")}}}}
